@@ -114,9 +114,6 @@ theorem pipeline_sem (sorted : Bool) (h : List Nat → List Nat) (hh : ∀ xs f,
       rw [hk] at this; cases this
     · have : (afterElim s1).g.kindOf x = some .tru := e
       rw [hk] at this; cases this
-  have herr3 : ∀ {s' : LState} {v' v'' : Nat → Bool}, CExt (afterElim s1) v' s' v'' →
-      (eliminate (addFree s1).1.g (addFree s1).2).err = true → s'.g.err = true :=
-    fun he h => he.err.trans h
   rcases eliminate_sem (addFree s1).1.g (addFree s1).2 c2.model i2.ins with herr | ⟨hm3, _⟩
   · -- the error flag is raised: it is still raised at the end
     left
